@@ -58,7 +58,7 @@ def run(ck):
                'regroup/owner changes; every third scenario gives delegators two delegable Grants of different shapes - a narrow one carrying the action, a broad one without it - and direct Delegations fitting or exceeding the narrow one), the stored state dumped after every step, 25 random requests plus requests aimed through every direct Delegation decided on it, each delegate decision compared with its delegator\'s decision for the same request; '
                '(c) ~55 KML/KQL/META commands (benign, refused, hostile; text and injected-AST path) x 2 principals each plus an EXPORT under a two-party approval (refused / allowed once, approvals spent / refused), '
                'snapshots compared after every command; (b) 6 authority shapes (ceiling, classification list, kind scope, '
-               'policy allow statement, field mask, result cap) x generated populations, ~45 commands on 3 stores, plus delegate-vs-delegator id sets for two-Grant delegators. Non-trivial = a '
+               'policy allow statement, field mask, result cap) x generated populations, ~45 commands on 3 stores, plus delegate-vs-delegator id sets for two-Grant delegators; a third of the Concepts/Propositions are reclassified by the control plane after a marker coordinate (raised or lowered) and reads AS OF that coordinate reach them by type scan, by id, as tuple endpoints, through followed references (also from a visible tuple to a hidden endpoint), path steps, OPTIONAL, Assertion members and EXPORT. Non-trivial = a '
                'distinct state with >= 1 delegation or policy statement (a), a distinct (principal, command, outcome) (c), '
                'a distinct (shape, hidden count, command) with hidden elements present (b)')
     translate_gov(ck)
